@@ -2143,4 +2143,457 @@ theorem abs_extrapolate (s r : Series) (coeffs : List Rat) (c : Rat) (a : Int) (
         rw [e]
 
 
+/-! ### hstack of two series -/
+
+
+theorem length_sliceFromUntil (s : Series) (a b : Int) : (s.sliceFromUntil a b).length = (b - a + 1).toNat := by
+  unfold Series.sliceFromUntil
+  simp only
+  obtain ⟨_, hb⟩ := positions_spec [a, b] (s.start.getD (min a b)) s.rows.length
+  have h1 := hb a (by simp)
+  have h2 := hb b (by simp)
+  rw [List.length_take, List.length_drop, length_expand]
+  generalize (getDatePositions [a, b] (s.start.getD (min a b)) s.rows.length).addBefore = B at h1 h2 ⊢
+  generalize (getDatePositions [a, b] (s.start.getD (min a b)) s.rows.length).addAfter = A at h1 h2 ⊢
+  generalize s.start.getD (min a b) = base at h1 h2 ⊢
+  omega
+
+/-- outside the encompassing window a series has nothing -/
+theorem abs_none_outside (s : Series) (lo hi : Int) (hlo : ∀ st, s.start = some st → lo ≤ st)
+    (hhi : ∀ e, s.endSerial = some e → e ≤ hi) (t : Int) (v : Nat) (h : ¬ (lo ≤ t ∧ t ≤ hi)) : s.abs t v = none := by
+  by_cases c : lo ≤ t
+  · exact abs_none_of_gt_end s t v (fun e he => by have := hhi e he; omega)
+  · exact abs_none_of_lt_start s t v (fun st hst => by have := hlo st hst; omega)
+
+theorem abs_none_of_isEmpty (s : Series) (hR : Rect s) (h : s.isEmpty = true) (t : Int) (v : Nat) : s.abs t v = none := by
+  apply abs_eq_none_of_cells
+  intro i
+  exact cells_none_of_size_zero s hR (by simpa [Series.isEmpty] using h) i v
+
+/-- a cell of a row of the horizontally stacked block -/
+theorem hrow_get (ra rb : Row) (v : Nat) :
+    (([ra, rb].flatten)[v]?).getD none = if v < ra.length then (ra[v]?).getD none else (rb[v - ra.length]?).getD none := by
+  simp only [List.flatten_cons, List.flatten_nil, List.append_nil]
+  by_cases h : v < ra.length
+  · rw [if_pos h, List.getElem?_append_left h]
+  · rw [if_neg h, List.getElem?_append_right (by omega)]
+
+/-- **hstack of two series**: the result has `a.nv + b.nv` variants; variant `v < a.nv` reads `a`, variant `v ≥ a.nv` reads `b`
+at `v - a.nv`, at every period (the encompassing span is implicit: outside it both sides are missing) -/
+theorem abs_hstack2 (f : Freq) (a b r : Series) (ha : Inv a) (hb : Inv b) (h : hstack f [a, b] = .ok r) (t : Int) (v : Nat) :
+    r.nv = a.nv + b.nv ∧ r.abs t v = if v < a.nv then a.abs t v else b.abs t (v - a.nv) := by
+  have hbv : a.nv ≤ v → b.nv ≤ v - a.nv → b.abs t (v - a.nv) = none := fun _ h2 => abs_none_of_ge_nv b hb.1 t _ h2
+  unfold hstack at h
+  simp only [List.map_cons, List.map_nil, List.foldl_cons, List.foldl_nil, Nat.zero_add] at h
+  by_cases hall : ([a, b].all fun s => s.isEmpty) = true
+  · rw [if_pos hall] at h
+    simp only [pure, Except.pure, Except.ok.injEq] at h
+    subst h
+    simp only [List.all_cons, List.all_nil, Bool.and_true, Bool.and_eq_true] at hall
+    refine ⟨rfl, ?_⟩
+    have e1 : (Series.new f (a.nv + b.nv)).abs t v = none := by simp [Series.abs, Series.new]
+    rw [e1]
+    split
+    · exact (abs_none_of_isEmpty a ha.1 hall.1 t v).symm
+    · exact (abs_none_of_isEmpty b hb.1 hall.2 t _).symm
+  · rw [if_neg hall] at h
+    have eo : optMin (optMin none a.start) b.start = optMin a.start b.start := by simp [optMin]
+    have ex : optMax (optMax none a.endSerial) b.endSerial = optMax a.endSerial b.endSerial := by simp [optMax]
+    rw [eo, ex] at h
+    cases hlo : optMin a.start b.start with
+    | none => simp [hlo] at h
+    | some lo =>
+      cases hhi : optMax a.endSerial b.endSerial with
+      | none => simp [hlo, hhi] at h
+      | some hi =>
+        simp only [hlo, hhi] at h
+        obtain ⟨m1, m2⟩ := optMin_le _ _ lo hlo
+        obtain ⟨x1, x2⟩ := le_optMax _ _ hi hhi
+        have hnew : Inv (Series.new f (a.nv + b.nv)) := inv_new _ _
+        obtain ⟨_, hnv, _, h4⟩ := setData_spec _ _ _ _ r hnew h
+        refine ⟨hnv, ?_⟩
+        have hout : ¬ (lo ≤ t ∧ t ≤ hi) → (if v < a.nv then a.abs t v else b.abs t (v - a.nv)) = none := by
+          intro ho
+          split
+          · exact abs_none_outside a lo hi m1 x1 t v ho
+          · exact abs_none_outside b lo hi m2 x2 t _ ho
+        have hnone : ∀ t v, (Series.new f (a.nv + b.nv)).abs t v = none := by intro t v; simp [Series.abs, Series.new]
+        generalize hn : (hi - lo + 1).toNat = n at h4
+        rcases h4 with ⟨h0, h5⟩ | ⟨_, _, m, h6, h7⟩
+        · -- empty span: hi < lo
+          rw [h5 t v, hnone]
+          have : n = 0 := by
+            have := congrArg List.length h0
+            simpa using this
+          exact (hout (by omega)).symm
+        · let rows : List Row := (List.range n).map (fun i =>
+            [((a.sliceFromUntil lo hi)[i]?).getD [], ((b.sliceFromUntil lo hi)[i]?).getD []].flatten)
+          let colf : Nat → List Cell := fun k => rows.map (fun r => (r[k]?).getD none)
+          have hcol : ∀ k, k < a.nv + b.nv →
+              ((DataArg.array (transpose (a.nv + b.nv) rows)).variant k).values n = some (colf k) ∧ (colf k).length = n := by
+            intro k hk
+            have e : ((transpose (a.nv + b.nv) rows).map Col.column)[k]? = some (Col.column (colf k)) := by
+              simp [transpose, List.getElem?_map, List.getElem?_range hk, colf]
+            refine ⟨?_, by simp [colf, rows]⟩
+            simp only [DataArg.variant]
+            rw [exhaustThenLast_get _ _ _ k e]
+            simp [Col.values, colf, rows]
+          obtain ⟨m', h8, h9⟩ := writeAll_span (a.nv + b.nv) n lo _ colf hcol (a.nv + b.nv) 0
+            (Series.new f (a.nv + b.nv)).abs (by omega)
+          have hv0 : allVids (Series.new f (a.nv + b.nv)) = (List.range' 0 (a.nv + b.nv)).map (fun (i : Nat) => (i : Int)) := by
+            simp [allVids, resolveVariants, List.range_eq_range', Series.new]
+          have hsp : (List.range n).map (fun (i : Nat) => lo + (i : Int)) = spanList lo n := rfl
+          rw [hsp, hv0] at h6
+          have hnvnew : (Series.new f (a.nv + b.nv)).nv = a.nv + b.nv := rfl
+          rw [hnvnew, h8] at h6
+          simp only [Option.some.injEq] at h6
+          subst h6
+          rw [h7 t v, h9 t v]
+          by_cases cin : lo ≤ t ∧ t < lo + (n : Int)
+          · by_cases cv : v < a.nv + b.nv
+            · rw [if_pos ⟨⟨by omega, cv⟩, cin⟩]
+              have hi' : (t - lo).toNat < n := by omega
+              have hla := length_sliceFromUntil a lo hi
+              have hlb := length_sliceFromUntil b lo hi
+              obtain ⟨ra, hra⟩ : ∃ ra, (a.sliceFromUntil lo hi)[(t - lo).toNat]? = some ra :=
+                ⟨(a.sliceFromUntil lo hi)[(t - lo).toNat]'(by omega), by simp⟩
+              obtain ⟨rb, hrb⟩ : ∃ rb, (b.sliceFromUntil lo hi)[(t - lo).toNat]? = some rb :=
+                ⟨(b.sliceFromUntil lo hi)[(t - lo).toNat]'(by omega), by simp⟩
+              have lra := rect_slice a lo hi ha.1 ra (List.mem_of_getElem? hra)
+              have e1 : ((colf v)[(t - lo).toNat]?).getD none = (([ra, rb].flatten)[v]?).getD none := by
+                simp [colf, rows, List.getElem?_map, List.getElem?_range hi', hra, hrb]
+              rw [e1, hrow_get, lra]
+              have ea := cellAt_slice a ha.2 lo hi (t - lo).toNat
+              have eb := cellAt_slice b hb.2 lo hi (t - lo).toNat
+              have et : lo + (((t - lo).toNat : Nat) : Int) = t := by omega
+              split
+              · have := ea v
+                rw [if_pos (by omega), et] at this
+                rw [← this]; simp [cellAt, hra]
+              · have := eb (v - a.nv)
+                rw [if_pos (by omega), et] at this
+                rw [← this]; simp [cellAt, hrb]
+            · rw [if_neg (fun hh => cv hh.1.2), hnone]
+              rw [if_neg (by omega)]
+              exact (hbv (by omega) (by omega)).symm
+          · rw [if_neg (fun hh => cin hh.2), hnone]
+            exact (hout (by omega)).symm
+
+
+/-! ### overlay / underlay with variant broadcasting -/
+
+
+/-- `_broadcast_variants(n)` of a one-variant series: every variant reads the single one; span unchanged -/
+theorem broadcastVariants_spec (s s' : Series) (n : Nat) (hI : Inv s) (h1 : s.nv = 1) (h : s.broadcastVariants n = .ok s') :
+    Inv s' ∧ s'.nv = n ∧ (∀ t, InSpan s' t ↔ InSpan s t) ∧ ∀ t v, v < n → s'.abs t v = s.abs t 0 := by
+  have hinv := inv_broadcastVariants s n s' hI h
+  unfold Series.broadcastVariants at h
+  by_cases c : s.nv = n
+  · rw [if_pos c] at h
+    simp only [pure, Except.pure, Except.ok.injEq] at h
+    subst h
+    refine ⟨hinv, c, fun _ => Iff.rfl, ?_⟩
+    intro t v hv
+    have : v = 0 := by omega
+    rw [this]
+  · rw [if_neg c, if_pos h1] at h
+    simp only [pure, Except.pure, Except.ok.injEq] at h
+    subst h
+    refine ⟨hinv, rfl, ?_, ?_⟩
+    · intro t; unfold InSpan; simp
+    · intro t v hv
+      unfold Series.abs
+      cases s.start with
+      | none => rfl
+      | some st =>
+        simp only
+        split
+        · unfold cellAt
+          rw [List.getElem?_map]
+          cases s.rows[(t - st).toNat]? with
+          | none => rfl
+          | some r => simp [List.getElem?_replicate, hv]
+        · rfl
+
+/-- `_broadcast_variants_if_needed` (as repaired: `other` is broadcast as a copy): both sides end up with the broadcast
+number of variants, the same spans, and variant `v` of a side reads its variant `bidx nv v` -/
+theorem broadcastPair_spec (a b a' b' : Series) (nv : Nat) (ha : Inv a) (hb : Inv b) (hbc : bcastNv a.nv b.nv = some nv)
+    (h : broadcastPair a b = .ok (a', b')) :
+    Inv a' ∧ Inv b' ∧ a'.nv = nv ∧ b'.nv = nv ∧ (∀ t, InSpan a' t ↔ InSpan a t) ∧ (∀ t, InSpan b' t ↔ InSpan b t) ∧
+    (∀ t v, v < nv → a'.abs t v = a.abs t (bidx a.nv v)) ∧ (∀ t v, v < nv → b'.abs t v = b.abs t (bidx b.nv v)) := by
+  unfold broadcastPair at h
+  unfold bcastNv at hbc
+  by_cases c1 : a.nv = b.nv
+  · rw [if_pos c1] at h hbc
+    simp only [pure, Except.pure, Except.ok.injEq, Prod.mk.injEq, Option.some.injEq] at h hbc
+    obtain ⟨rfl, rfl⟩ := h
+    refine ⟨ha, hb, hbc, by omega, fun _ => Iff.rfl, fun _ => Iff.rfl, ?_, ?_⟩
+    · intro t v hv; unfold bidx; split
+      · have : v = 0 := by omega
+        rw [this]
+      · rfl
+    · intro t v hv; unfold bidx; split
+      · have : v = 0 := by omega
+        rw [this]
+      · rfl
+  · rw [if_neg c1] at h hbc
+    by_cases c2 : a.nv = 1
+    · rw [if_pos c2] at h hbc
+      simp only [bind_ok, pure, Except.pure, Except.ok.injEq, Prod.mk.injEq, Option.some.injEq] at h hbc
+      obtain ⟨x, hx, rfl, rfl⟩ := h
+      obtain ⟨i1, i2, i3, i4⟩ := broadcastVariants_spec a x b.nv ha c2 hx
+      refine ⟨i1, hb, by omega, hbc, i3, fun _ => Iff.rfl, ?_, ?_⟩
+      · intro t v hv; rw [i4 t v (by omega)]; simp [bidx, c2]
+      · intro t v hv
+        have : b.nv ≠ 1 := by omega
+        simp [bidx, this]
+    · rw [if_neg c2] at h hbc
+      by_cases c3 : b.nv = 1
+      · rw [if_pos c3] at h hbc
+        simp only [bind_ok, pure, Except.pure, Except.ok.injEq, Prod.mk.injEq, Option.some.injEq] at h hbc
+        obtain ⟨x, hx, rfl, rfl⟩ := h
+        obtain ⟨i1, i2, i3, i4⟩ := broadcastVariants_spec b x a.nv hb c3 hx
+        refine ⟨ha, i1, hbc, by omega, fun _ => Iff.rfl, i3, ?_, ?_⟩
+        · intro t v hv; simp [bidx, c2]
+        · intro t v hv; rw [i4 t v (by omega)]; simp [bidx, c3]
+      · rw [if_neg c3] at hbc; cases hbc
+
+/-- **overlay with variant broadcasting** (n vs n, 1 vs n, n vs 1) -/
+theorem abs_overlay_bcast (self other r : Series) (nv : Nat) (hI : Inv self) (hO : Inv other)
+    (hbc : bcastNv self.nv other.nv = some nv) (h : self.overlay other = .ok r) (t : Int) (v : Nat) (hv : v < nv) :
+    (InSpan other t → r.abs t v = other.abs t (bidx other.nv v)) ∧
+    (¬ InSpan other t → r.abs t v = self.abs t (bidx self.nv v)) := by
+  unfold Series.overlay at h
+  simp only [bind_ok] at h
+  obtain ⟨⟨s, o⟩, hp, h2⟩ := h
+  obtain ⟨i1, i2, i3, i4, i5, i6, i7, i8⟩ := broadcastPair_spec self other s o nv hI hO hbc hp
+  obtain ⟨j1, j2⟩ := abs_overlayCore s o r i1 i2 (by omega) h2 t v
+  constructor
+  · intro hin
+    rw [j1 ((i6 t).mpr hin) (by omega), i8 t v hv]
+  · intro hn
+    rw [j2 (fun hh => hn ((i6 t).mp hh)), i7 t v hv]
+
+theorem underlay_ok (self other r : Series) (h : self.underlay other = .ok r) :
+    ∃ s o, broadcastPair self other = .ok (s, o) ∧ o.overlay s = .ok r := by
+  unfold Series.underlay at h
+  cases hp : broadcastPair self other with
+  | error e => rw [hp] at h; cases h
+  | ok p =>
+    obtain ⟨s, o⟩ := p
+    rw [hp] at h
+    refine ⟨s, o, rfl, ?_⟩
+    cases ho : o.overlay s with
+    | error e =>
+      have : (Except.error e : R Series) = .ok r := by
+        have h' := h
+        simp only [bind, Except.bind, ho] at h'
+        exact h'
+      cases this
+    | ok x =>
+      have h' := h
+      simp only [bind, Except.bind, ho, pure, Except.pure] at h'
+      exact h'
+
+/-- **underlay with variant broadcasting** -/
+theorem abs_underlay_bcast (self other r : Series) (nv : Nat) (hI : Inv self) (hO : Inv other)
+    (hbc : bcastNv self.nv other.nv = some nv) (h : self.underlay other = .ok r) (t : Int) (v : Nat) (hv : v < nv) :
+    (InSpan self t → r.abs t v = self.abs t (bidx self.nv v)) ∧
+    (¬ InSpan self t → r.abs t v = other.abs t (bidx other.nv v)) := by
+  obtain ⟨s, o, hp, h2⟩ := underlay_ok self other r h
+  obtain ⟨i1, i2, i3, i4, i5, i6, i7, i8⟩ := broadcastPair_spec self other s o nv hI hO hbc hp
+  obtain ⟨j1, j2⟩ := abs_overlay o s r i2 i1 (by omega) h2 t v
+  constructor
+  · intro hin
+    rw [j1 ((i5 t).mpr hin) (by omega), i7 t v hv]
+  · intro hn
+    rw [j2 (fun hh => hn ((i5 t).mp hh)), i8 t v hv]
+
+
+/-! ### fill_missing on `abs` -/
+
+
+theorem serialsOf_same (f : Freq) (l : List Int) : serialsOf f (l.map (fun x => (⟨f, x⟩ : Period))) = .ok l := by
+  unfold serialsOf
+  rw [mapM_eq_map _ (fun p => p.serial)]
+  · have e : ((fun p : Period => p.serial) ∘ fun x => (⟨f, x⟩ : Period)) = id := rfl
+    rw [List.map_map, e, List.map_id]
+  · intro p hp
+    obtain ⟨x, _, rfl⟩ := List.mem_map.mp hp
+    simp [pure, Except.pure]
+
+theorem withFreq_self (s : Series) : ({ s with freq := s.freq } : Series) = s := by cases s; rfl
+
+/-- the column of variant `v` over the span `a, …, a+n-1`, as the fill functions see it -/
+def spanCol (s : Series) (a : Int) (n v : Nat) : List Cell := (spanList a n).map (fun u => s.abs u v)
+
+theorem spanList_get (a : Int) (n i : Nat) (h : i < n) : (spanList a n)[i]? = some (a + (i : Int)) := by
+  simp [spanList, List.getElem?_map, List.getElem?_range h]
+
+/-- **fill_missing over a span of consecutive periods**: nothing outside the span changes; inside it an observed cell is kept
+and a missing cell receives `fillAt method (column of abs over the span) (position in the span)` -/
+theorem abs_fillMissing (s r : Series) (m : FillMethod) (a : Int) (n : Nat) (hn : 1 ≤ n) (hI : Inv s)
+    (st : Int) (hs : s.start = some st)
+    (h : s.fillMissingP m ((spanList a n).map (fun x => (⟨s.freq, x⟩ : Period))) = .ok r) (t : Int) (v : Nat) :
+    (¬ (a ≤ t ∧ t < a + (n : Int)) → r.abs t v = s.abs t v) ∧
+    (a ≤ t → t < a + (n : Int) → v < s.nv →
+      r.abs t v = match s.abs t v with
+        | some x => some x
+        | none => fillAt m (spanCol s a n v) (t - a).toNat) := by
+  unfold Series.fillMissingP at h
+  simp only [bind_ok] at h
+  obtain ⟨data, hd, h2⟩ := h
+  have hne : spanList a n ≠ [] := by
+    intro h0
+    have := congrArg List.length h0
+    simp [spanList] at this
+    omega
+  have hpsne : ((spanList a n).map (fun x => (⟨s.freq, x⟩ : Period))) ≠ [] := by simpa using hne
+  have hff : s.freqFor ((spanList a n).map (fun x => (⟨s.freq, x⟩ : Period))) = s.freq := by
+    simp [Series.freqFor, hs]
+  -- the read
+  have hdata : data = (spanList a n).map (fun t => (List.range s.nv).map (fun v => s.abs t v)) := by
+    unfold Series.getDataP at hd
+    rw [hff] at hd
+    dsimp only at hd
+    rw [serialsOf_same] at hd
+    simp only [bind, Except.bind] at hd
+    have := getData_eq_abs s hI.2 (spanList a n) (List.range s.nv) (fun v hv => List.mem_range.mp hv)
+    simp only [resolveVariants] at hd
+    rw [this] at hd
+    exact (Except.ok.inj hd).symm
+  -- the write
+  unfold Series.setDataP at h2
+  rw [if_neg (by
+    intro hh
+    exact hpsne (List.isEmpty_iff.mp hh.1))] at h2
+  rw [hff] at h2
+  dsimp only at h2
+  rw [serialsOf_same] at h2
+  have hwf : ({ freq := s.freq, start := s.start, nv := s.nv, rows := s.rows } : Series) = s := by cases s; rfl
+  rw [hwf] at h2
+  simp only [bind, Except.bind] at h2
+  obtain ⟨_, _, _, h4⟩ := setData_spec _ _ _ _ r hI h2
+  rcases h4 with ⟨h0, _⟩ | ⟨_, _, mm, h6, h7⟩
+  · exact absurd h0 hne
+  · let colf : Nat → List Cell := fun k => fillColumn m (spanCol s a n k)
+    have hcols : ∀ k, k < s.nv → (transpose s.nv data)[k]? = some (spanCol s a n k) := by
+      intro k hk
+      simp only [transpose, List.getElem?_map, List.getElem?_range hk, Option.map_some, hdata, List.map_map, spanCol]
+      congr 1
+      apply List.map_congr_left
+      intro u _
+      simp [Function.comp, List.getElem?_map, List.getElem?_range hk]
+    have hcol : ∀ k, k < s.nv →
+        ((DataArg.variants ((transpose s.nv data).map (fun c => Col.column (fillColumn m c)))).variant k).values n =
+          some (colf k) ∧ (colf k).length = n := by
+      intro k hk
+      have hl : (colf k).length = n := by simp [colf, fillColumn_length, spanCol, spanList]
+      have e : ((transpose s.nv data).map (fun c => Col.column (fillColumn m c)))[k]? = some (Col.column (colf k)) := by
+        rw [List.getElem?_map, hcols k hk]; rfl
+      refine ⟨?_, hl⟩
+      simp only [DataArg.variant]
+      rw [exhaustThenLast_get _ _ _ k e]
+      simp [Col.values, hl]
+    obtain ⟨m', h8, h9⟩ := writeAll_span s.nv n a _ colf hcol s.nv 0 s.abs (by omega)
+    have hv0 : resolveVariants s.nv .all = (List.range' 0 s.nv).map (fun (i : Nat) => (i : Int)) := by
+      simp [resolveVariants, List.range_eq_range']
+    rw [hv0, h8] at h6
+    simp only [Option.some.injEq] at h6
+    subst h6
+    refine ⟨?_, ?_⟩
+    · intro hout
+      rw [h7, h9, if_neg (fun hh => hout hh.2)]
+    · intro h1 h2' hv
+      rw [h7, h9, if_pos ⟨⟨by omega, hv⟩, h1, h2'⟩]
+      have hi : (t - a).toNat < n := by omega
+      have hcolAt : colAt (spanCol s a n v) (t - a).toNat = s.abs t v := by
+        simp only [colAt, spanCol, List.getElem?_map, spanList_get a n _ hi, Option.map_some, Option.getD_some]
+        congr 1; omega
+      show colAt (fillColumn m (spanCol s a n v)) (t - a).toNat = _
+      cases hx : s.abs t v with
+      | some x => exact fillColumn_obs m _ _ x (by rw [hcolAt, hx])
+      | none =>
+        exact fillColumn_missing m _ _ (by simp [spanCol, spanList]; omega) (by rw [hcolAt, hx])
+
+
+theorem colAt_spanCol (s : Series) (a : Int) (n v j : Nat) (h : j < n) : colAt (spanCol s a n v) j = s.abs (a + (j : Int)) v := by
+  simp [colAt, spanCol, List.getElem?_map, spanList_get a n j h]
+
+theorem length_spanCol (s : Series) (a : Int) (n v : Nat) : (spanCol s a n v).length = n := by simp [spanCol, spanList]
+
+theorem nextObs_none (col : List Cell) (i : Nat) (h : nextObs col i = none) :
+    ∀ j, i ≤ j → j < col.length → colAt col j = none := by
+  unfold nextObs at h
+  rw [List.head?_eq_none_iff, List.filter_eq_nil_iff] at h
+  intro j h1 h2
+  have := h j (List.mem_range.mpr h2)
+  simp only [decide_eq_true_eq, not_and, ne_eq, Decidable.not_not] at this
+  exact this h1
+
+theorem prevObs_none (col : List Cell) (i : Nat) (h : prevObs col i = none) :
+    ∀ j, j ≤ i → j < col.length → colAt col j = none := by
+  unfold prevObs at h
+  rw [List.getLast?_eq_none_iff, List.filter_eq_nil_iff] at h
+  intro j h1 h2
+  have := h j (List.mem_range.mpr h2)
+  simp only [decide_eq_true_eq, not_and, ne_eq, Decidable.not_not] at this
+  exact this h1
+
+/-- `next` on periods: a missing cell at `a+i` takes the value of the first observed period at or after it inside the span,
+and stays missing when there is none -/
+theorem fillAt_next (s : Series) (a : Int) (n v i : Nat) (hi : i < n) :
+    (fillAt .next (spanCol s a n v) i = none ∧ ∀ j, i ≤ j → j < n → s.abs (a + (j : Int)) v = none) ∨
+    ∃ j, i ≤ j ∧ j < n ∧ s.abs (a + (j : Int)) v ≠ none ∧ (∀ j', i ≤ j' → j' < j → s.abs (a + (j' : Int)) v = none) ∧
+      fillAt .next (spanCol s a n v) i = s.abs (a + (j : Int)) v := by
+  cases hq : nextObs (spanCol s a n v) i with
+  | none =>
+    left
+    refine ⟨by simp [fillAt, hq], ?_⟩
+    intro j h1 h2
+    rw [← colAt_spanCol s a n v j h2]
+    exact nextObs_none _ _ hq j h1 (by rw [length_spanCol]; exact h2)
+  | some j =>
+    right
+    obtain ⟨h1, h2, h3, h4⟩ := nextObs_spec _ _ _ hq
+    rw [length_spanCol] at h1
+    refine ⟨j, h2, h1, by rw [← colAt_spanCol s a n v j h1]; exact h3, ?_, ?_⟩
+    · intro j' q1 q2
+      rw [← colAt_spanCol s a n v j' (by omega)]
+      exact h4 j' q1 q2
+    · simp [fillAt, hq, colAt_spanCol s a n v j h1]
+
+/-- `previous` on periods -/
+theorem fillAt_previous (s : Series) (a : Int) (n v i : Nat) (hi : i < n) :
+    (fillAt .previous (spanCol s a n v) i = none ∧ ∀ j, j ≤ i → s.abs (a + (j : Int)) v = none) ∨
+    ∃ j, j ≤ i ∧ s.abs (a + (j : Int)) v ≠ none ∧ (∀ j', j < j' → j' ≤ i → s.abs (a + (j' : Int)) v = none) ∧
+      fillAt .previous (spanCol s a n v) i = s.abs (a + (j : Int)) v := by
+  cases hq : prevObs (spanCol s a n v) i with
+  | none =>
+    left
+    refine ⟨by simp [fillAt, hq], ?_⟩
+    intro j h1
+    rw [← colAt_spanCol s a n v j (by omega)]
+    exact prevObs_none _ _ hq j h1 (by rw [length_spanCol]; omega)
+  | some j =>
+    right
+    obtain ⟨h1, h2, h3, h4⟩ := prevObs_spec _ _ _ hq
+    rw [length_spanCol] at h1
+    refine ⟨j, h2, by rw [← colAt_spanCol s a n v j h1]; exact h3, ?_, ?_⟩
+    · intro j' q1 q2
+      rw [← colAt_spanCol s a n v j' (by omega)]
+      exact h4 j' q1 q2 (by rw [length_spanCol]; omega)
+    · simp [fillAt, hq, colAt_spanCol s a n v j h1]
+
+
+/-! ### NaN rules of the statistics -/
+
+theorem obsVals_nil_of_all_none (r : List Cell) (h : ∀ c ∈ r, c = none) : obsVals r = [] := by
+  induction r with
+  | nil => rfl
+  | cons c cs ih =>
+    have hc := h c (by simp)
+    subst hc
+    simpa [obsVals] using ih (fun c' hc' => h c' (List.mem_cons_of_mem _ hc'))
+
 end IrisVerif.Series
